@@ -1,4 +1,5 @@
 import T4V.Text.Lex
+import T4V.Text.Blocks
 /-!
 # Property C14 — output does not depend on MCNP-insignificant formatting of the deck
 
@@ -151,5 +152,101 @@ theorem five_blanks_continue (l : List Char) (prev : Option (List Char)) (h : le
 
 example : (contents ["1 0  -1 $ first".toList, "c a comment".toList, "     imp:n=1 &".toList, "u=2".toList,
     "2 0 1".toList]).map String.ofList = ["1 0 -1 imp:n=1 u=2", "2 0 1"] := by decide
+
+
+/-! ### blocks: blank-line delimiters and the message block (`get_block_positions`) -/
+
+
+/-- scanning a run of non-blank lines: they are added to the current block -/
+theorem blocksAux_nonblank : ∀ (b : List (List Char)), (∀ l ∈ b, blankLine l = false) → ∀ rest cur acc inDelim,
+    b ≠ [] → blocksAux (b ++ rest) cur acc inDelim = blocksAux rest (b.reverse ++ cur) acc false
+  | [], _, _, _, _, _, h => absurd rfl h
+  | [l], hb, rest, cur, acc, inDelim, _ => by
+      have := hb l (by simp)
+      simp [blocksAux, this]
+  | l :: l2 :: b, hb, rest, cur, acc, inDelim, _ => by
+      have h1 := hb l (by simp)
+      have ih := blocksAux_nonblank (l2 :: b) (fun x hx => hb x (by simp [hx])) rest (l :: cur) acc false (by simp)
+      simp only [List.cons_append, blocksAux, h1, Bool.false_eq_true, if_false] at ih ⊢
+      rw [ih]
+      simp
+
+/-- scanning a non-empty run of blank lines after a block: the block is closed, once -/
+theorem blocksAux_blank : ∀ (g : List (List Char)), (∀ l ∈ g, blankLine l = true) → g ≠ [] → ∀ rest cur acc,
+    blocksAux (g ++ rest) cur acc false = blocksAux rest [] (cur.reverse :: acc) true
+  | [], _, h, _, _, _ => absurd rfl h
+  | [l], hg, _, rest, cur, acc => by
+      have := hg l (by simp)
+      simp [blocksAux, this]
+  | l :: l2 :: g, hg, _, rest, cur, acc => by
+      have h1 := hg l (by simp)
+      have h2 := hg l2 (by simp)
+      have key : ∀ (g' : List (List Char)), (∀ x ∈ g', blankLine x = true) → ∀ acc',
+          blocksAux (g' ++ rest) [] acc' true = blocksAux rest [] acc' true := by
+        intro g' hg' acc'
+        induction g' with
+        | nil => rfl
+        | cons x g'' ih =>
+          have hx := hg' x (by simp)
+          simp only [List.cons_append, blocksAux, hx, if_true]
+          exact ih (fun y hy => hg' y (by simp [hy]))
+      simp only [List.cons_append, blocksAux, h1, if_true, Bool.false_eq_true, if_false]
+      exact key (l2 :: g) (fun x hx => hg x (by simp [hx])) _
+
+/-- **the delimiter between two blocks may be any non-empty run of blank lines** (empty lines, lines of blanks or
+tabs, in any number): the blocks are the same -/
+theorem delimiter_immaterial (g g' rest : List (List Char))
+    (hg : ∀ l ∈ g, blankLine l = true) (hg' : ∀ l ∈ g', blankLine l = true) (hne : g ≠ []) (hne' : g' ≠ [])
+    (cur : List (List Char)) (acc : List (List (List Char))) :
+    blocksAux (g ++ rest) cur acc false = blocksAux (g' ++ rest) cur acc false := by
+  rw [blocksAux_blank g hg hne, blocksAux_blank g' hg' hne']
+
+/-- a message block in front: the blocks are the message block followed by the blocks of the rest -/
+theorem message_block_split (msg : List (List Char)) (g rest : List (List Char))
+    (hm : ∀ l ∈ msg, blankLine l = false) (hmne : msg ≠ []) (hg : ∀ l ∈ g, blankLine l = true) (hgne : g ≠ [])
+    (hrest : ∀ l, rest.head? = some l → blankLine l = false) (hrne : rest ≠ []) :
+    blocksOf (msg ++ g ++ rest) = msg :: blocksOf rest := by
+  unfold blocksOf
+  rw [List.append_assoc, blocksAux_nonblank msg hm _ _ _ _ hmne, blocksAux_blank g hg hgne]
+  simp only [List.append_nil, List.reverse_reverse]
+  -- after the delimiter the scan of `rest` proceeds as from the start, with the message block already recorded
+  have gen : ∀ (ls : List (List Char)) (cur : List (List Char)) (acc : List (List (List Char))) (d : Bool),
+      blocksAux ls cur (acc ++ [msg]) d = msg :: blocksAux ls cur acc d := by
+    intro ls
+    induction ls with
+    | nil => intro cur acc d; cases d <;> simp [blocksAux]
+    | cons l ls ih =>
+      intro cur acc d
+      by_cases hb : blankLine l = true
+      · cases d
+        · simp only [blocksAux, hb, if_true, Bool.false_eq_true, if_false]
+          rw [← List.cons_append, ih]
+        · simp only [blocksAux, hb, if_true]
+          exact ih _ _ _
+      · have hb' : blankLine l = false := by simpa using hb
+        simp only [blocksAux, hb', Bool.false_eq_true, if_false]
+        exact ih _ _ _
+  cases rest with
+  | nil => exact absurd rfl hrne
+  | cons r rs =>
+    have hr := hrest r rfl
+    have := gen (r :: rs) [] [] true
+    simp only [List.nil_append] at this
+    rw [this]
+    simp [blocksAux, hr]
+
+/-- **a leading message block is immaterial**: title, cell, surface and data blocks are those of the deck without it -/
+theorem message_block_immaterial (msg g rest : List (List Char))
+    (hm : ∀ l ∈ msg, blankLine l = false) (hmne : msg ≠ []) (hg : ∀ l ∈ g, blankLine l = true) (hgne : g ≠ [])
+    (hrest : ∀ l, rest.head? = some l → blankLine l = false) (hrne : rest ≠ [])
+    (hmsg : startsWithMessage (joinLines (msg ++ g ++ rest)) = true)
+    (hno : startsWithMessage (joinLines rest) = false) :
+    (getBlocks (msg ++ g ++ rest)).map (fun b => (b.t, b.c, b.s, b.d)) =
+      (getBlocks rest).map (fun b => (b.t, b.c, b.s, b.d)) := by
+  unfold getBlocks
+  rw [message_block_split msg g rest hm hmne hg hgne hrest hrne]
+  simp only [hmsg, hno, if_true, Bool.false_eq_true, if_false, List.drop_succ_cons, List.drop_zero]
+  generalize blocksOf rest = bs
+  rcases bs with _ | ⟨b1, _ | ⟨b2, _ | ⟨b3, _ | ⟨b4, r⟩⟩⟩⟩ <;> rfl
 
 end T4V.C14
